@@ -21,11 +21,11 @@ def T(proved, partial=None, validated=None):
 TECH = "Coq proof (invariants over histories / refinement to a spec) + model-implementation correspondence (extraction, differential) + independent oracle"
 CLAIMED = {
  'C01': dict(text=T("presence = union of accepted spans for every call sequence and both classes (C01_presence, C01_flat), outcome rule Done/ValueError/NetworkXError (C01_outcome_*), monotonicity and frame (C01_monotone_frame)."), design="DESIGN.md 5 C01"),
- 'C02': dict(text=T("in every state reachable by add_interaction/add_node (C02_reach): neighbors/successors/predecessors, nodes(t)/has_node/number_of_nodes, in_/out_interactions (with nbunch), undirected interactions(), degree and degree dicts (nbunch), size/number_of_interactions(t) with the handshake lemma (C02_size), density on the flattened graph, degree_histogram, non_neighbors, non_interactions, get_node_snapshots, is_empty are exactly the projections of has_interaction, each interaction once (C02_neighbors, C02_nodes, C02_in_out_interactions, C02_interactions_undirected, C02_degree, C02_degree_dict, C02_size, C02_density_flat, C02_degree_histogram, C02_non_neighbors, C02_non_interactions, C02_node_snapshots, C02_is_empty, C02_number_of_interactions_pair).",
+ 'C02': dict(text=T("[over the HISTORY, both classes, every call sequence: has_interaction / has_node(t) / nodes(t) / number_of_nodes / neighbours / predecessors / degree / digraph size(t) equal definitions written with the accepted calls' spans only (C02_history, C02_history_size)] in every state reachable by add_interaction/add_node (C02_reach): neighbors/successors/predecessors, nodes(t)/has_node/number_of_nodes, in_/out_interactions (with nbunch), undirected interactions(), degree and degree dicts (nbunch), size/number_of_interactions(t) with the handshake lemma (C02_size), density on the flattened graph, degree_histogram, non_neighbors, non_interactions, get_node_snapshots, is_empty are exactly the projections of has_interaction, each interaction once (C02_neighbors, C02_nodes, C02_in_out_interactions, C02_interactions_undirected, C02_degree, C02_degree_dict, C02_size, C02_density_flat, C02_degree_histogram, C02_non_neighbors, C02_non_interactions, C02_node_snapshots, C02_is_empty, C02_number_of_interactions_pair).",
                      "digraph interactions() is only sound (C02_interactions_partial / C02_digraph_interactions_refuted); undirected self-loop arithmetic: C02_size needs no_selfloop on DynGraph (C02_selfloop_refuted); density(G,t)=0 (C02_density_t_refuted).",
                      "the _iter / dn.* forms (one-line delegations) and non_interactions on DynDiGraph (set-order dependent) are compared by the correspondence / soundness oracle only."), design="DESIGN.md 5 C02"),
  'C03': dict(text=T("timelines are canonical, their union is the presence, both directions of an undirected pair expose one timeline (C03_canon, C03_union, C03_symmetric); time_slice/to_directed/to_undirected results and every graph the readers return (read_snapshots, read_interactions, node_link_graph; row and text level) satisfy all invariants, hence are canonical (C03_derived_wf, C03_wf_canon, C03_readers_wf, C03_wfg_canon)."), design="DESIGN.md 5 C03"),
- 'C04': dict(text=T("[source-level tie: temporal_snapshots_ids and avg_number_of_nodes are translated from the Python text on every run and proved equal to the model, C04_source_text] snapshot ids are strictly increasing and exactly the inhabited instants, per-snapshot counts equal the number of present pairs, dict form, avg_number_of_nodes (C04_ids, C04_count, C04_count_is_presence, C04_all, C04_avg).") , design="DESIGN.md 5 C04"),
+ 'C04': dict(text=T("[over the HISTORY: ids enumerate exactly the instants covered by an accepted span, count(t) = number of distinct pairs of the history present at t (C04_history)] [source-level tie: temporal_snapshots_ids and avg_number_of_nodes are translated from the Python text on every run and proved equal to the model, C04_source_text] snapshot ids are strictly increasing and exactly the inhabited instants, per-snapshot counts equal the number of present pairs, dict form, avg_number_of_nodes (C04_ids, C04_count, C04_count_is_presence, C04_all, C04_avg).") , design="DESIGN.md 5 C04"),
  'C05': dict(text=T("stream sorted and duplicate-free, '+' iff appearance, '-' sound, runs of >= 3 instants closed (C05_sorted_nodup, C05_plus, C05_minus_sound, C05_closed_partial); replaying the stream reconstructs presence whenever all runs of >= 2 instants are closed (C05_replay_partial).",
                      "closure of 2-instant runs and replay in their presence: C05_closed_refuted, C05_replay_refuted (witness 18,19; K-C05-1)."), design="DESIGN.md 5 C05"),
  'C06': dict(text=T("window errors/default, class, presence = window AND source presence, nodes+attributes, the slice is Good, WF and WFG (all invariants behind C02-C05), slicing a slice = slicing by the intersection of the windows for presence, snapshot ids, per-snapshot counts, node set and node attributes, empty when the windows do not meet (C06_window, C06_presence, C06_nodes, C06_slice_good, C06_slice_wellformed, C06_compose, C06_compose_ids, C06_compose_counts, C06_compose_nodes, C06_compose_disjoint).",
